@@ -299,6 +299,24 @@ def native_priv(name):
     return k.raw_value
 
 
+def rich_headers():
+    """Admissible header contents beyond a couple of short strings: an embedded public `jwk` whose own members repeat names
+    of the enclosing header (kid, alg - ACME / DPoP style), headers of several hundred to a few thousand octets (RSA jwk,
+    `x5c` chain, long kid / jku), nested values of every JSON type in a private member."""
+    rsa_pub = K.key("rsa2048", private=False).as_dict(private=False)
+    ec_pub = K.key("p256", private=False).as_dict(private=False)
+    cert = "MIIB" + "QUJDREVGR0hJSktMTU5PUFFSU1RVVldYWVo" * 24
+    return [
+        {"kid": "signer-1", "jwk": dict(ec_pub, kid="signer-1", alg="ES256")},
+        {"kid": "signer-2", "typ": "JOSE", "jwk": dict(rsa_pub, kid="signer-2", alg="RS256", use="sig")},
+        {"jwk": dict(rsa_pub, typ="not-a-header-here")},
+        {"x5c": [cert, cert[:-4] + "AAAA"], "x5t": "dGh1bWI"},
+        {"kid": "k" * 700},
+        {"jku": "https://keys.example/" + "a/" * 300 + "jwks.json", "kid": "with-long-jku"},
+        {"cty": "x", "kid": "nested", "typ": "é" * 200},
+    ]
+
+
 def valid_cases(ctx, algs=None, payloads=None, kinds=("compact", "flat", "general", "c7797", "j7797"), spell_styles=(0,), quick_keys=True):
     """Reference-signed tokens that MUST verify."""
     rng = ctx.rng
@@ -311,6 +329,8 @@ def valid_cases(ctx, algs=None, payloads=None, kinds=("compact", "flat", "genera
                 payload = rng.choice(payloads or PAYLOADS)
                 style = rng.choice(spell_styles)
                 extra = rng.choice([None, None, {"cty": "invoice+json"}, {"typ": "JOSE", "kid": "billing-1"}])
+                if rng.random() < 0.2:
+                    extra = copy.deepcopy(rng.choice(rich_headers()))
                 out.append(build_valid(rng, alg, kn, priv, kind, payload, style, extra))
     return out
 
@@ -475,6 +495,20 @@ def tamper(case: VCase, rng, others):
         mk(h, p, b"", "empty-signature")
         for note, sig2 in signature_respellings(raw, str(case.meta.get("header", {}).get("alg", ""))):
             mk(h, p, b64u(sig2), note)
+        # the algorithm is the one the (signed) header names - not one the verification key declares for itself: the header is
+        # rewritten to a sibling algorithm, the signature is made by the reference signer with the ORIGINAL algorithm over
+        # that new input, and the verifier's key carries "alg": <original>; a verifier that follows the key accepts it
+        alg0 = str(case.meta.get("header", {}).get("alg", ""))
+        sibling = {"HS256": "HS512", "HS384": "HS256", "HS512": "HS384", "RS256": "RS512", "RS384": "PS384", "RS512": "RS256",
+                   "PS256": "RS256", "PS384": "PS512", "PS512": "PS256"}.get(alg0)
+        kn0 = case.meta.get("key")
+        if sibling and kn0 and not unenc and hasattr(case.key, "as_dict"):
+            nh2 = dict(case.meta.get("header", {}))
+            nh2["alg"] = sibling
+            h2 = b64u(json.dumps(nh2, separators=(",", ":")).encode())
+            sig2 = jwsref.sign(alg0, native_priv(kn0), h2 + b"." + p)
+            keyed = make_key(kn0, private=False if not kn0.startswith("oct") else True, alg=alg0)
+            out.append(VCase(k, h2 + b"." + p + b"." + b64u(sig2), keyed, case.reg, case.detached, "alg-follows-key-not-header", case.meta))
         # none-downgrade
         nh = dict(case.meta.get("header", {}))
         nh["alg"] = "none"
